@@ -83,6 +83,12 @@ func (i *interpreter) global(g *ssa.Global) *value {
 	if r, ok := i.globals[g]; ok {
 		return r
 	}
+	// package initialisation happens before main in Go: its accesses are
+	// not part of any race.
+	if RaceOn && sched != nil && sched.race != nil {
+		sched.race.off++
+		defer func() { sched.race.off-- }()
+	}
 	pkg := g.Pkg
 	st := i.pkgInit[pkg]
 	if st == 0 && pkg != nil {
